@@ -460,7 +460,14 @@ fn write_spec(s: &ProgSpec) -> R<Result<(Written, Vec<ExpRow>, Vec<Option<ExpFil
     }
     let endian = if s.big { RunTimeEndian::Big } else { RunTimeEndian::Little };
     let mut w = WDebugLine::from(EndianVec::new(endian));
-    match p.write(&mut w, enc, &mut ls, &mut st) {
+    // the encoding of the unit the program belongs to is only checked for compatibility: a DWARF 5 unit may carry an
+    // older program, and the formats may differ; neither may change what is written
+    let unit_enc = match (s.files.len() + s.dirs.len()) % 3 {
+        1 => Encoding { version: 5, ..enc },
+        2 => Encoding { format: if s.format64 { Format::Dwarf32 } else { Format::Dwarf64 }, ..enc },
+        _ => enc,
+    };
+    match p.write(&mut w, unit_enc, &mut ls, &mut st) {
         Ok(off) => {
             ensure_eq!(off.0, 0, "c13/write/offset");
         }
